@@ -18,7 +18,7 @@ CONSTANTS Bases,     \* set of <<n, d>> base values for semi-axes
           Eps,       \* set of near-tie exponents e (0 = exact)
           Centres,   \* set of centres, each <<<<n,d>>,<<n,d>>,<<n,d>>>>
           Scales,    \* set of scale exponents sc
-          CentresE, ScalesE,  \* the same for ellipsoids (three axes multiply the state space)
+          CentresE, ScalesE, BasesE, EpsE,  \* the same for ellipsoids (three axes multiply the state space)
           SeriesN,   \* number of series terms for the ellipse perimeter
           Classes    \* the classes to visit (a subset of Circle, Ellipse, Sphere, Ellipsoid)
 
@@ -52,7 +52,8 @@ AxMax(S) == CHOOSE a \in S : \A b \in S : ~AxLt(a, b)
 (* ---- state machine over parameters ------------------------------------------ *)
 NAx(c) == CASE c = "Circle" -> 1 [] c = "Sphere" -> 1 [] c = "Ellipse" -> 2 [] c = "Ellipsoid" -> 3
 Init == /\ cls \in Classes
-        /\ ax \in [1..NAx(cls) -> {Axis(b, e) : b \in Bases, e \in Eps}]
+        /\ ax \in [1..NAx(cls) -> {Axis(b, e) : b \in (IF cls = "Ellipsoid" THEN BasesE ELSE Bases),
+                                                 e \in (IF cls = "Ellipsoid" THEN EpsE ELSE Eps)}]
         /\ ctr \in (IF cls = "Ellipsoid" THEN CentresE ELSE Centres)
         /\ sc \in (IF cls = "Ellipsoid" THEN ScalesE ELSE Scales)
 \* relabelling the axes and rescaling are the transformations whose laws the harness checks on the code
